@@ -11,7 +11,8 @@ DOCS = [("plain", [" x"]), ("two-lines", [" first", " second"]), ("empty-line-be
         ("line-comment", [" // not a comment"]), ("template", [" `${x}`"]), ("import-words", [" import type { A } from \"./A\";"]),
         ("blank-then-export", [" a", "", " export type Q = 1;"]),
         ("leading-slash", ["/etc/passwd is read"]), ("leading-slash-multiline", ["/ x\ny"]), ("second-line-leading-slash", [" a", "/b"]),
-        ("object-intersection-words", [" has { a } & { b } inside"]), ("trailing-star", [" ends with *"]), ("only-slash", ["/"])]
+        ("object-intersection-words", [" has { a } & { b } inside"]), ("trailing-star", [" ends with *"]), ("only-slash", ["/"]),
+        ("format-placeholders", [" uses {0} and {1}, {{x}} and }}"]), ("lone-braces", [" a } and a { and {}"]), ("unpaired-quote", [" say \"hi"]), ("percent-and-braces", [" 100% {} {:?}"])]
 
 
 def doc_attrs(texts):
@@ -43,10 +44,17 @@ def build(tier):
         case("variant", "dropped", *pair(lambda n, w: TypeDef(n, "enum", variants=[Variant("A", "unit", attrs=(d if w else [])), Variant("B", "tuple", [Field("i32")])], derives=TS_ONLY, vals=False)))
         case("flattened-field", "dropped", *pair(lambda n, w: TypeDef(n, "struct", "named", [Field("St", "a", (d if w else []) + ["#[ts(flatten)]"]), Field("String", "b")], derives=TS_ONLY, vals=False)))
         case("tuple-field", "dropped", *pair(lambda n, w: TypeDef(n, "struct", "tuple", [Field("i32", None, d if w else []), Field("String")], derives=TS_ONLY, vals=False)))
+        case("type-override-field", "field:a", *pair(lambda n, w: TypeDef(n, "struct", "named", [Field("i32", "a", (d if w else []) + ['#[ts(type = "number /* seconds */")]']), Field("String", "b")], derives=TS_ONLY, vals=False)))
+        case("as-field", "field:a", *pair(lambda n, w: TypeDef(n, "struct", "named", [Field("i32", "a", (d if w else []) + ['#[ts(as = "String")]']), Field("String", "b")], derives=TS_ONLY, vals=False)))
+        case("optional-field", "field:a", *pair(lambda n, w: TypeDef(n, "struct", "named", [Field("Option<i32>", "a", (d if w else []) + ["#[ts(optional)]"]), Field("String", "b")], derives=TS_ONLY, vals=False)))
+        case("inline-field", "field:a", *pair(lambda n, w: TypeDef(n, "struct", "named", [Field("St", "a", (d if w else []) + ["#[ts(inline)]"]), Field("String", "b")], derives=TS_ONLY, vals=False)))
+        case("renamed-field", "field:re-named", *pair(lambda n, w: TypeDef(n, "struct", "named", [Field("i32", "a", (d if w else []) + ['#[ts(rename = "re-named")]']), Field("String", "b")], derives=TS_ONLY, vals=False)))
         case("type-and-field", "type", *pair(lambda n, w: TypeDef(n, "struct", "named", [Field("i32", "a", d if w else []), Field("String", "b")], attrs=(d if w else []), derives=TS_ONLY, vals=False)))
     # documentation inside types that get flattened several levels up (text heuristics on the way)
     for kind, text in (("unbalanced-open-paren", " see (appendix"), ("unbalanced-close-paren", " done) now"), ("brace-amp-brace", " has { a } & { b } inside"),
-                       ("pipe-and-amp", " a | b & c"), ("quote", " say \"hi\""), ("plain", " x")):
+                       ("pipe-and-amp", " a | b & c"), ("quote", " say \"hi\""), ("plain", " x"),
+                       ("unpaired-quote", " say \"hi"), ("unpaired-quote-then-parens", " a \" then ) & ( again"), ("comment-opener", " has /* inside ("),
+                       ("backslash-quote", " ends \\\" ("), ("format-placeholders", " {0} {{ }}")):
         d1 = doc_attrs([text])
 
         def mk(n, w):
